@@ -111,6 +111,44 @@ Theorem C06_waiting_consumer_asks :
 Proof. exact waiting_consumer_asks. Qed.
 Print Assumptions C06_waiting_consumer_asks.
 
+(* ---- the connection handshake (a consumer is not counted until it has heard the publisher) ---------------------------- *)
+From OF Require Import Proto.Handshake.
+
+(* first contact: a request marked "new" from an unknown client is not registered, nothing is published for it, a HELLO is owed *)
+Theorem C06_first_contact_not_counted :
+  forall s f o q, MSG_ID_SPECIAL < q_mid q -> has_client (q_cid q) (q_uid q) (clients s) = false ->
+    s_handshake s = true -> q_new q = true ->
+    exists f', on_request s f o q = (s, f', [], PrAgain) /\ sf_do_hello f' = true /\ sf_msg_id f' = sf_msg_id f /\
+               sf_topicmsgs f' = sf_topicmsgs f /\ sf_do_send f' = sf_do_send f.
+Proof. exact first_contact_not_counted. Qed.
+Print Assumptions C06_first_contact_not_counted.
+
+(* the HELLO that is owed goes out with the next send_maybe (or a frame does, to every output); the debt is cleared *)
+Theorem C06_owed_hello_is_paid :
+  forall s f s1 f1 o1 r, send_maybe s f = (s1, f1, o1, r) -> s_balance s = false -> sf_do_hello f = true ->
+    sf_do_hello f1 = false /\
+    (In SOHello o1 \/ exists tm, sf_topicmsgs f = Some tm /\
+        In (SOPub (seq 0 (s_nout s)) (sf_msg_id f) (if sf_balanced f =? 0 then 0 else sf_balanced f + 1) (map fst tm) tm) o1).
+Proof. exact owed_hello_is_paid. Qed.
+Print Assumptions C06_owed_hello_is_paid.
+
+(* consumer side: reading the HELLO marks the source as heard and does nothing else *)
+Theorem C06_hello_marks_source_heard :
+  forall v st f i m s0, nth_error (srcs st) i = Some s0 -> w_mid m = MSG_ID_HELLO ->
+    exists f1, on_msg v st f i m = (with_srcs (set_src (srcs st) i (fun _ => with_conn true s0)) st, f1, [], false) /\
+               nth_error (set_src (srcs st) i (fun _ => with_conn true s0)) i = Some (with_conn true s0) /\
+               f_min f1 = f_min f.
+Proof. exact hello_marks_source_heard. Qed.
+Print Assumptions C06_hello_marks_source_heard.
+
+(* ... so its next request is not marked new (C06_waiting_consumer_asks: q_new = negb conn), and that request registers it *)
+Theorem C06_heard_consumer_is_registered :
+  forall s f o q s1 f1 o1 r, on_request s f o q = (s1, f1, o1, r) -> MSG_ID_SPECIAL < q_mid q -> q_new q = false ->
+    has_client (q_cid q) (q_uid q) (clients s) = false ->
+    exists c, In c (clients s1) /\ c_cid c = q_cid q /\ c_uid c = q_uid q /\ c_requested c = true /\ c_prev c = q_mid q /\ c_out c = o.
+Proof. exact heard_consumer_is_registered. Qed.
+Print Assumptions C06_heard_consumer_is_registered.
+
 (* Non-vacuity: client 1 asks for id 7 of a freshly started publisher (min_send_id 0): id 8 is adopted. *)
 Theorem C06_nonvacuous :
   min_send_id (fst (srun (init_sender 1 false [])
